@@ -44,7 +44,9 @@ TRegIn == /\ l <= Len(Tr) /\ Ev.e = "RegIn" /\ Step /\ UNCHANGED <<base, cur>>
           /\ Len(Ev.yt) = Ev.n /\ Len(Ev.yp) = Ev.n /\ Ev.m = Cnt(Ev.yt) /\ Ev.m >= 1
           /\ reg' = [set |-> TRUE, yt |-> Ev.yt, yp |-> Ev.yp, m |-> Ev.m]
 Keep == UNCHANGED <<base, cur, reg>>
-Within(q, nd) == nd[2] > 0 /\ Abs(q * nd[2] - nd[1] * 10000) <= nd[2]     \* |q/1e4 - n/d| <= 1e-4
+Within(q, nd) == /\ nd[2] > 0                                             \* |q/1e4 - n/d| <= 1e-4
+                 /\ Abs(q) <= (Abs(nd[1]) * 10000) \div nd[2] + 2            \* first: keeps q*d inside 32 bits for a saturated (inf/NaN) q
+                 /\ Abs(q * nd[2] - nd[1] * 10000) <= nd[2]
 TMse == l <= Len(Tr) /\ Ev.e = "Mse" /\ Step /\ Keep /\ reg.set /\ Ev.ssen = SSE(reg.yt, reg.yp) /\ Ev.res <= Tol
 TMae == /\ l <= Len(Tr) /\ Ev.e = "Mae" /\ Step /\ Keep /\ reg.set /\ Ev.saen = SAE(reg.yt, reg.yp) /\ Ev.res <= Tol
         /\ Ev.saen * Ev.saen <= reg.m * SSE(reg.yt, reg.yp)                 \* MAE <= RMSE
